@@ -23,6 +23,12 @@ from ..tstore import World
 PROPERTY = "C03"
 LEVEL = "exploration"
 RESERVED = 256_000
+# tracemalloc also sees non-data interpreter memory (metadata objects, codec state, closures, ...), which the statement
+# excludes.  cubed's reserved_mem (256 kB here) is the plan's own allowance for it; measured non-data memory of single
+# tasks in this environment reaches ~300 kB (e.g. broadcast_to over 12 kB blocks: 60-250 kB above the projection, varying
+# between two measurements of the same task), so a task counts as exceeding its projection only beyond a further 256 kB.
+# One copy of the smallest float64 chunk used here (768 kB) is three times that.
+NONDATA_SLACK = 256_000
 
 N = 360
 GEOMS = {
@@ -190,7 +196,7 @@ def measure(item):
             first = worst
             if w2[0] < worst[0]:
                 worst = w2  # the confirmed (reproducible) figure is the smaller of the two measurements
-            if w2[0] > 1.0 and first[0] > 1.0:
+            if w2[4] > w2[5] + NONDATA_SLACK and first[4] > first[5] + NONDATA_SLACK:
                 probs.append((dict(kind="task-exceeds-projected-mem", op=name, cubed_op=str(worst[2]), optimize=optimize),
                               dict(name=name, geom=geom, dtype=dtype, compressor=comp, optimize=optimize),
                               f"{name} [{geom} {shape}/{chunks} {dtype} compressor={comp} optimize={optimize}]: task {worst[3]} of op {worst[2]} "
@@ -250,6 +256,8 @@ def run(ctx):
     ctx.set("rule", "computation = operation x geometry x dtype x compressor x optimize; every task of every op of its executed plan is measured; "
             "distinct_nontrivial = computations measured (each has >= 4 tasks on chunks of 0.3-1 MB)")
     ctx.sample(dict(op="matmul", geometry=GEOMS["square"], dtype="float64", compressor="auto", optimize=True))
+    ctx.set("nondata_slack_bytes", NONDATA_SLACK)
     ctx.assumptions += ["tracemalloc sees Python/NumPy buffers, not native codec scratch memory",
+                        "a task exceeds its projection only if both measurements are more than 256 kB above projected_mem (non-data interpreter memory beyond reserved_mem)",
                         "reserved_mem=256 kB is the allowance for non-data interpreter memory (cubed's own contract)",
                         "this is a monitor over an enumerated finite space, the weakest fit to the technique family; memory is checked at MB scale, not proved for all sizes"]
